@@ -417,3 +417,55 @@ def l_c10_leak(conv: Converter, prefixes: list, extra: tuple):
         except ValueError:
             pass
         assert conv_state(conv) == before_state
+
+
+# ---- loop invariants for the index builders ------------------------------------------------------
+@invariant("api._get_prefix_map", loop=0)
+def inv_pm0(records, rv, _i, _xs):
+    return (all(any(p in P(r) for r in _xs[:_i]) for p in rv)
+            and all(p in rv for r in _xs[:_i] for p in P(r))
+            and (clashP(records) or all(rv[p] == r.uri_prefix for r in _xs[:_i] for p in P(r))))
+
+
+@invariant("api._get_prefix_map", loop=1)
+def inv_pm1(records, record, rv, _i, _xs, _outer_i, _outer_xs):
+    return (all(any(p in P(r) for r in _outer_xs[:_outer_i]) or p == record.prefix or p in _xs[:_i] for p in rv)
+            and all(p in rv for r in _outer_xs[:_outer_i] for p in P(r))
+            and record.prefix in rv and all(p in rv for p in _xs[:_i])
+            and (clashP(records) or (all(rv[p] == r.uri_prefix for r in _outer_xs[:_outer_i] for p in P(r))
+                                     and rv[record.prefix] == record.uri_prefix
+                                     and all(rv[p] == record.uri_prefix for p in _xs[:_i]))))
+
+
+@invariant("api._get_prefix_synmap", loop=0)
+def inv_sm0(records, rv, _i, _xs):
+    return (all(any(p in P(r) for r in _xs[:_i]) for p in rv)
+            and all(p in rv for r in _xs[:_i] for p in P(r))
+            and (clashP(records) or all(rv[p] == r.prefix for r in _xs[:_i] for p in P(r))))
+
+
+@invariant("api._get_prefix_synmap", loop=1)
+def inv_sm1(records, record, rv, _i, _xs, _outer_i, _outer_xs):
+    return (all(any(p in P(r) for r in _outer_xs[:_outer_i]) or p == record.prefix or p in _xs[:_i] for p in rv)
+            and all(p in rv for r in _outer_xs[:_outer_i] for p in P(r))
+            and record.prefix in rv and all(p in rv for p in _xs[:_i])
+            and (clashP(records) or (all(rv[p] == r.prefix for r in _outer_xs[:_outer_i] for p in P(r))
+                                     and rv[record.prefix] == record.prefix
+                                     and all(rv[p] == record.prefix for p in _xs[:_i]))))
+
+
+@invariant("api._get_reverse_prefix_map", loop=0)
+def inv_rm0(records, rv, _i, _xs):
+    return (all(any(u in U(r) for r in _xs[:_i]) for u in rv)
+            and all(u in rv for r in _xs[:_i] for u in U(r))
+            and (clashU(records) or all(rv[u] == r.prefix for r in _xs[:_i] for u in U(r))))
+
+
+@invariant("api._get_reverse_prefix_map", loop=1)
+def inv_rm1(records, record, rv, _i, _xs, _outer_i, _outer_xs):
+    return (all(any(u in U(r) for r in _outer_xs[:_outer_i]) or u == record.uri_prefix or u in _xs[:_i] for u in rv)
+            and all(u in rv for r in _outer_xs[:_outer_i] for u in U(r))
+            and record.uri_prefix in rv and all(u in rv for u in _xs[:_i])
+            and (clashU(records) or (all(rv[u] == r.prefix for r in _outer_xs[:_outer_i] for u in U(r))
+                                     and rv[record.uri_prefix] == record.prefix
+                                     and all(rv[u] == record.prefix for u in _xs[:_i]))))
